@@ -673,7 +673,7 @@ pub fn check<E: Engine>(engine: &E, tier: Tier, opts: &CheckOpts) -> CheckResult
         let mut scratch = Stats::default();
         let still = matches!(engine.exec(&final_plan, &mut scratch, None), Ok(o) if o.violation.as_ref().map(|v| v.class.as_str()) == Some(class.as_str()));
         if !still {
-            println!("HARNESS-ERROR violation {class} at index {} did not reproduce when re-executed", found.index);
+            println!("HARNESS-ERROR violation {class} at index {} did not reproduce when re-executed (as seen in the batch: {})", found.index, found.violation.detail);
             exit = 2;
             continue;
         }
